@@ -112,6 +112,33 @@ pub fn present(rng: &mut Rng, files: &[FileSpec]) -> Vec<String> {
     }
 }
 
+/// Adds 6-17 more valid one-block files (unique names, no relation to the world) to a variant, with
+/// file names that sort before, between and after the usual ones: a compilation set of 9-20 files.
+/// The files are named as arguments unless a directory argument already covers them.
+pub fn add_padding_files(rng: &mut Rng, v: &mut Variant) {
+    let count = rng.range(6, 17);
+    let covered = v.args.iter().any(|a| matches!(a.as_str(), "ws" | "ws/." | "ws/./" | "ws/../ws" | "ws/../ws/."));
+    let style = rng.below(3);
+    for i in 0..count {
+        let prefix = match style {
+            0 => "0pad",
+            1 => "zpad",
+            _ => *rng.pick(&["0pad", "kpad", "zpad"]),
+        };
+        let name = format!("{prefix}{i:02}.st");
+        if v.files.iter().any(|f| f.name == name) {
+            continue;
+        }
+        let text = format!("FUNCTION_BLOCK Pad{i}\n  VAR\n    k : INT;\n  END_VAR\n  k := {i};\nEND_FUNCTION_BLOCK\n");
+        let pos = rng.below(v.files.len() + 1);
+        v.files.insert(pos, FileSpec { name: name.clone(), decls: vec![], enc: Enc::Utf8, raw: Some(text.into_bytes()), via_symlink: false });
+        if !covered && !v.args.is_empty() {
+            let pos = rng.below(v.args.len() + 1);
+            v.args.insert(pos, format!("ws/{name}"));
+        }
+    }
+}
+
 fn canonical_variant(world: &World, role: &str) -> Variant {
     Variant {
         role: role.to_string(),
@@ -199,7 +226,11 @@ pub fn gen_c06(rng: &mut Rng, thorough: bool) -> WorldTrace {
             v.hash_seed = rng.next();
             variants.push(v);
         } else {
-            variants.push(random_variant(rng, &world, "variant", 3));
+            let mut v = random_variant(rng, &world, "variant", 3);
+            if rng.chance(1, 8) && matches!(v.entry, Entry::Check) {
+                add_padding_files(rng, &mut v);
+            }
+            variants.push(v);
         }
     }
     WorldTrace { prop: "C06".into(), world, variants, mode: String::new() }
@@ -324,7 +355,9 @@ fn static_fault(rng: &mut Rng, v: &mut Variant) -> &'static str {
     match rng.below(14) {
         0 => {
             let pos = rng.below(v.args.len() + 1);
-            v.args.insert(pos, "ws/missing.st".into());
+            // sometimes a long name of multi-byte characters (it is quoted in the diagnostic)
+            let name = if rng.chance(1, 3) { format!("ws/{}{}.st", "x".repeat(rng.below(4)), rng.pick(&["ä", "€", "é"]).repeat(rng.range(60, 80))) } else { "ws/missing.st".to_string() };
+            v.args.insert(pos, name);
             "missing_path"
         }
         1 => {
@@ -1212,7 +1245,12 @@ pub fn gen_c03(rng: &mut Rng, thorough: bool) -> WorldTrace {
             spread_over_directories(rng, &mut files);
         }
         let args = present(rng, &files);
-        variants.push(mk("company", entry, files, args, rng));
+        let mut v = mk("company", entry, files, args, rng);
+        if rng.chance(1, 8) && matches!(v.entry, Entry::Check) {
+            // more company than the quantifier asks for: "whatever other files accompany it"
+            add_padding_files(rng, &mut v);
+        }
+        variants.push(v);
     }
     WorldTrace { prop: "C03".into(), world, variants, mode: if name_reuse { "name_reuse".into() } else if clash_world { "clash".into() } else { "plain".into() } }
 }
